@@ -88,7 +88,8 @@ func (sys System) parseSpan(s string) (span, bool, error) {
 			break
 		}
 		maxOpen := close == ')'
-		min, err := sys.parse(versions[0], false)
+		// A lower bound may hold ∞ too: PyPI's `>1.2.*` starts at 1.2.∞.
+		min, err := sys.parse(versions[0], sys == PyPI)
 		if err != nil {
 			return span{}, false, err
 		}
